@@ -111,6 +111,7 @@ def run(ctx):
   # (cfg, coverage actions or None for liveness runs)
   mcs = [("MCQ_Q1i.cfg", ENV_Q), ("MCQ_Q1t.cfg", ENVT), ("MC_Ti.cfg", TIM),
          ("MCQ_S2i.cfg", ["Setup", "Cycle", "HubSelect"]), ("MCQ_IO1i.cfg", ["Setup", "Cycle", "HubSelect", "QFdSet"]),
+         ("MCQ_RW2i.cfg", ["Setup", "Cycle", "HubSelect", "QFdSet"]),
          ("LIVE_i.cfg", None), ("LIVE_t.cfg", None)]
   if not quick:
     mcs += [("MC_Tt.cfg", TIM + ["Idle"]), ("MC_Q1i.cfg", FULL), ("MC_Q1t.cfg", FULL + ["Idle"])]
@@ -119,7 +120,9 @@ def run(ctx):
          ("EX_IO1i.cfg", pi, 2000), ("EX_IO2si.cfg", pi, 1500),
          ("EX_Ti.cfg", pi, 1500), ("EX_Tt.cfg", pt, 1000),
          # the same hub with use_epoll=True: pox.lib.epoll_select.EpollSelect must behave like select()
-         ("EX_IO1i.cfg", dict(pi, epoll=True), 1500)]
+         ("EX_IO1i.cfg", dict(pi, epoll=True), 1500),
+         # read and write interest in the same socket (two tasks / one after the other), both select implementations
+         ("EX_RW2i.cfg", pi, 1500), ("EX_RW2i.cfg", dict(pi, epoll=True), 1500), ("EX_RW2t.cfg", dict(pt, epoll=True), 1000)]
   if not quick:
     exs += [("EX_S2t.cfg", pt, 2000), ("EX_IO2st.cfg", pt, 1500), ("EX_Q1t.cfg", dict(pt, epoll=True), 1500)]
   # (two tasks x all 2-op programs is ~3k set-ups and millions of transitions: covered by simulation instead)
